@@ -330,7 +330,7 @@ def run_S_and_H(pid, tier, seed):
 
 reg("C03", ["Props.C03_start_at_most_once", "Props.C03_exactly_once_at_done", "Props.C03_only_selected",
             "Props.C03_distinct_call_sites", "Props.C03_distinct_call_sites_flags", "Props.C11_setup_at_most_once"] + COMMON_S_THEOREMS, run_S_and_H, ASSUME_S)
-def placement_when_called_from_a_worker(inner_maxc, outer_maxc, inner_async):
+def placement_when_called_from_a_worker(inner_maxc, outer_maxc, inner_async, with_setup=False):
     """A DAG invoked at RUN time from a thread node of another DAG: its invoking thread is a pool worker of the outer DAG.
     Pooled nodes of the inner DAG must still run on other threads, its main-thread nodes on the invoking (worker) thread."""
     import asyncio as _a
@@ -350,7 +350,12 @@ def placement_when_called_from_a_worker(inner_maxc, outer_maxc, inner_async):
     xa = _xn(mkf("a"), resource=_R.async_thread)
     xm = _xn(mkf("m"), resource=_R.main_thread)
 
+    xsi = _xn(mkf("setup_inner"), setup=True)
+    xso = _xn(mkf("setup_outer"), setup=True)
+
     def inner_desc():
+        if with_setup:
+            return xt(xsi()), xa(), xm(xt2())
         return xt(), xa(), xm(xt2())
     inner_desc.__name__ = inner_desc.__qualname__ = "inner_rt"
     inner = _mk(inner_desc, inner_maxc, inner_async)
@@ -363,14 +368,18 @@ def placement_when_called_from_a_worker(inner_maxc, outer_maxc, inner_async):
     xc = _xn(call_inner, resource=_R.thread)
 
     def outer_desc():
+        if with_setup:
+            return xc(), xso()
         return xc()
     outer_desc.__name__ = outer_desc.__qualname__ = "outer_rt"
     outer = _mk(outer_desc, outer_maxc, False)
     res = {}
     th = _t.Thread(target=lambda: res.setdefault("v", outer()), daemon=True)
-    th.start(); th.join(20)
-    if th.is_alive() or "v" not in res:
-        return ["hang-or-exception"], seen
+    th.start(); th.join(12)
+    if th.is_alive():
+        return ["hang"], seen
+    if "v" not in res:
+        return ["exception"], seen
     inv = seen["invoker"][0]
     bad = []
     for n_ in ("t", "t2", "a"):
@@ -423,6 +432,19 @@ def run_S_and_K(pid, tier, seed):
     import slice_k as K
     cov, fs, searcher = run_S(pid, tier, seed)
     kstats, kfs = K.run(pid, tier, seed, 120 if tier == "quick" else 1500)
+    # a DAG invoked at RUN time from a pool thread of another DAG (both sides with cold setup nodes, or without): terminates
+    nrt = 0
+    for inner_maxc, outer_maxc in ((1, 1), (2, 2), (1, 3)):
+        for with_setup in (True, False):
+            nrt += 1
+            bad_, _seen = placement_when_called_from_a_worker(inner_maxc, outer_maxc, False, with_setup=with_setup)
+            if "hang" in bad_:
+                fs.append(Failure("counterexample", "hang/dag-invoked-at-run-time-from-a-worker-thread",
+                                  dict(inner_max_concurrency=inner_maxc, outer_max_concurrency=outer_maxc, cold_setup_nodes=with_setup),
+                                  dict(note="the call neither returned nor raised within 12 s"), slice_="S"))
+                break
+    cov["runtime_nested_calls"] = nrt
+    cov["evaluations"] += nrt
     cov["handbuilt_tables"] = kstats
     cov["evaluations"] += kstats["tables"]
     cov["traces_validated_against_impl"] = cov.get("traces_validated_against_impl", 0) + kstats["tables"]
